@@ -315,6 +315,27 @@ def _pl(cfg, seed):
     return cfg
 
 
+# ---- call-order plane (fresh interpreters, see _hist_common): results must not depend on earlier calls
+HIST_LABELS = [("float32", "rk45"), ("float64", "rk45"), ("float64", "rk23"), ("float32", "rk23"), ("float64", "rk4"),
+               ("float32", "rk4")]
+HIST_TOL = [1e-4, 1e-9, 1e-9, 1e-4, 1e-12, 1e-5]
+HIST_PRELUDE = r'''
+import torch
+from xitorch.integrate import solve_ivp
+CALLS = %r
+def do(i):
+    dtn, method = CALLS[i]
+    dt = getattr(torch, dtn)
+    A = torch.tensor([[-0.3, 2.0], [-1.5, -0.3]], dtype=dt)
+    def f(t, y):
+        return A @ y + torch.cos(3.0 * t) * torch.tensor([0.2, -0.1], dtype=dt)
+    ts = torch.linspace(0.0, 2.0, 6, dtype=dt)
+    y0 = torch.tensor([1.0, -0.5], dtype=dt)
+    opts = {"atol": 1e-12, "rtol": 1e-9} if (method != "rk4" and dtn == "float64") else ({} if method == "rk4" else {"atol": 1e-6, "rtol": 1e-4})
+    return solve_ivp(f, ts, y0, method=method, **opts).double().reshape(-1).tolist()
+''' % (HIST_LABELS,)
+
+
 def cases(tier, seed):
     out = []
     dtypes = ["float64", "float32"]
@@ -354,6 +375,8 @@ def cases(tier, seed):
                             if d == "float64" and f in REL_FAMILIES and g in REL_GRIDS:
                                 out.append(_pl({"kind": "lattice", "method": m, "family": f, "grid": g, "tol": "rel",
                                                 "dtype": d, "plane": pl}, seed))
+    from mc.props import _hist_common as H
+    H.spread(out, H.hist_cases(len(HIST_LABELS), 2 if tier == "quick" else 3))
     return out
 
 
@@ -985,6 +1008,9 @@ def run_lattice(cfg):
 def run_case(cfg):
     torch.manual_seed(0)
     k = cfg["kind"]
+    if k == "history":
+        from mc.props import _hist_common as H
+        return H.run_history("C07", HIST_PRELUDE, ["%s/%s" % c for c in HIST_LABELS], cfg["seq"], HIST_TOL)
     if k == "tableau":
         return run_tableau(cfg)
     if k == "scheme":
